@@ -432,6 +432,7 @@ safe_call_function_pointer (funptr_t * funp, int num_arg)
 {
   error_context_t econ;
   svalue_t *ret;
+  int64_t entry_eval_cost = eval_cost;	/* not modified after setjmp() */
 
   if (!save_context (&econ))
     return 0;
@@ -446,6 +447,10 @@ safe_call_function_pointer (funptr_t * funp, int num_arg)
       /* condition was restored to where it was when we came in */
       pop_n_elems (num_arg);
       ret = 0;
+      /* same as safe_apply(): a "Too long evaluation" that ends here must not leave the
+       * LPC evaluation we were called from with a renewed budget */
+      if (eval_cost > entry_eval_cost && econ.save_csp >= control_stack)
+        eval_cost = 1;
     }
   pop_context (&econ);
   return ret;
